@@ -435,6 +435,53 @@ class Overlay:
             fr3 = self.new_frag(d, f"closure{n}-close", own, " }", seq, sel)
             fo.ins(toks[e - 1].end, fr3); fr3.status = "applied"
             return
+        if kind == "split-call":
+            # E2-h (insertions only): name the temporaries of the tail expression  RECV.method(ARGS)
+            #   RECV.method(ARGS)  =>  PRE RECV MID .method(ARGS) END
+            # with the three texts given in the directive body (sections separated by `--- mid` / `--- end`), e.g.
+            #   let mut __it = RECV; let ghost __rem = ..; let __r = __it.method(ARGS); proof { .. } __r
+            from rustlex import match_close
+            toks = fo.fs.toks
+            meth = opts["method"]
+            secs = {"pre": [], "mid": [], "end": []}
+            curs = "pre"
+            for l in body.split("\n"):
+                if l.strip() == "--- mid":
+                    curs = "mid"
+                elif l.strip() == "--- end":
+                    curs = "end"
+                else:
+                    secs[curs].append(l)
+            fr = self.new_frag(d, f"split-{meth}-pre", own, "\n".join(secs["pre"]).strip("\n"), seq, sel)
+            hits = [j for j in range(fn.body_open_tok + 1, fn.body_close_tok - 2)
+                    if toks[j].text == "." and toks[j + 1].text == meth and toks[j + 2].text == "("]
+            if len(hits) != 1:
+                lost(fr, f"fn {sel}: `.{meth}(` occurs {len(hits)} times"); return
+            j = hits[0]
+            a = j - 1
+            depth = 0
+            while a > fn.body_open_tok:
+                t = toks[a].text
+                if t in (")", "]", "}"):
+                    depth += 1
+                elif t in ("(", "[", "{"):
+                    if depth == 0:
+                        break
+                    depth -= 1
+                elif t == ";" and depth == 0:
+                    break
+                a -= 1
+            first = a + 1
+            close = match_close(toks, j + 2)
+            if toks[close + 1].text != "}" or close + 1 != fn.body_close_tok:
+                lost(fr, f"fn {sel}: `.{meth}(..)` is not the tail expression of the body"); return
+            fo.ins(toks[first].start, fr); fr.status = "applied"
+            fr2 = self.new_frag(d, f"split-{meth}-mid", own, "\n".join(secs["mid"]).strip("\n"), seq, sel)
+            fo.ins(toks[j].start, fr2); fr2.status = "applied"
+            fr3 = self.new_frag(d, f"split-{meth}-end", own, "\n".join(secs["end"]).strip("\n"), seq, sel)
+            fo.ins(toks[close].end, fr3); fr3.status = "applied"
+            self.e2.append(f"E2-h {d['file']}: {sel}: temporaries of the tail expression `{src[toks[first].start:toks[j].start]}.{meth}(..)` bound to locals (insertions only: `let mut __it = RECV; let __r = __it.{meth}(..); __r`)")
+            return
         if kind == "body-start":
             fr = self.new_frag(d, kind, own, "\n" + body, seq, sel)
             fo.ins(fn.body_open + 1, fr); fr.status = "applied"
@@ -554,7 +601,7 @@ class Overlay:
                 if m:
                     tags = [x for x in re.split(r"[,\s]+", m.group(1)) if x]
                 key = (fr.file, first + k)
-                minor = fr.kind.startswith("closure") and not fr.kind.endswith("-spec")   # `: TYPE` / ` }` share the line with the spec
+                minor = (fr.kind.startswith("closure") and not fr.kind.endswith("-spec")) or (fr.kind.startswith("split-") and k == 0)   # `: TYPE` / ` }` / `;` share the line with the spec
                 if key not in res or (l.strip() and not minor):
                     res[key] = (fr, tags, l.strip())
         return res
